@@ -284,9 +284,9 @@ type rawNode struct {
 	data []byte
 }
 
-func (r rawNode) RawData() []byte                 { return r.data }
-func (r rawNode) Cid() cid.Cid                    { return r.c }
-func (r rawNode) String() string                  { return r.c.String() }
+func (r rawNode) RawData() []byte                  { return r.data }
+func (r rawNode) Cid() cid.Cid                     { return r.c }
+func (r rawNode) String() string                   { return r.c.String() }
 func (r rawNode) Loggable() map[string]interface{} { return nil }
 func (r rawNode) Resolve([]string) (interface{}, []string, error) {
 	return nil, nil, errors.New("raw")
